@@ -213,3 +213,16 @@ Proof.
   - intros matches H. apply find_scp_answered. exact H.
   - intros nop subs. apply move_scp_answered.
 Qed.
+
+(* ... and without the restriction to non-empty data sets: a match whose identifier is empty travels as
+   a response without data set, reaches the user as (None, status), and does NOT end the iteration *)
+Definition opt_data (d : bytes) : option bytes := match d with [] => None | _ => Some d end.
+Lemma find_end_to_end_any q (matches : list (bytes * N)) :
+  Forall (fun m => find_pending (snd m) = true) matches ->
+  find_scu (map rsp_pair (find_scp q matches))
+  = map (fun m => (opt_data (fst m), snd m)) matches ++ [(None, 0)].
+Proof.
+  intros H. unfold find_scp. rewrite map_app. cbn [map rsp_pair simple_rsp o_data o_status].
+  induction H as [|m r Hp Hr IH]; [reflexivity|].
+  cbn [map app rsp_pair o_data o_status find_scu]. rewrite Hp. unfold opt_data at 1. f_equal. exact IH.
+Qed.
